@@ -19,6 +19,7 @@ PROPS = {
         "proof_module": "GeoProofs.Props.C19",
         "theorems": ["Geo.onSeg_iff_param", "Geo.raycast_on_iff", "Geo.raycast_in_iff", "Geo.raycast_on_not_in", "Geo.raycast_symm", "Geo.segIntersects_iff", "Geo.segIntersects_symm", "Geo.segContainsSeg_iff", "Geo.segContainsSeg_iff_subset", "Geo.collinearPt_iff", "Geo.segBox_tight", "Geo.spec_onSeg_iff", "Geo.spec_crosses_iff", "Geo.spec_segsMeet_iff"],
         "trivial_sigs": RAY_TRIVIAL | SI_TRIVIAL,
+        "claim": "Proof (Lean 4): raycast on/in, segment-intersects (symmetric), segment-contains, collinear-point and segment box are exact for all rational points incl. degenerate segments, with the IEEE division corner cases handled explicitly. Tie: exhaustive small lattices and adversarial random cases over regime E.",
         "rule": "exhaustive (segment,point) triples on the 5x5 lattice and segment pairs on the 4x4 lattice (6x6/5x5 thorough) "
                 "plus random and adversarial cases over the regime E; a case is distinct by its op text and non-trivial when "
                 "the model's return site is not a bounding-box / range early reject",
@@ -30,6 +31,7 @@ PROPS = {
         "proof_module": "GeoProofs.Props.C18",
         "theorems": ["Geo.convex_iff", "Geo.clockwise_iff", "Geo.rect_tight", "Geo.bboxSpec_tight", "Geo.clockwiseSpec_iff_area", "Geo.numSegments_spec", "Geo.segmentAt_spec", "Geo.convexSpec_rotate", "Geo.clockwiseSpec_rotate", "Geo.convexSpec_closing", "Geo.clockwiseSpec_closing", "Geo.processPoints_rotate_convex", "Geo.processPoints_rotate_clockwise", "Geo.processPoints_closing_convex", "Geo.processPoints_closing_clockwise"],
         "trivial_sigs": {"at--"},
+        "claim": "Proof (Lean 4): convex flag = no two opposite turns on the cyclic vertex sequence, clockwise flag = negative signed area, rectangle tight, both flags independent of start vertex and closing vertex, segment count/i-th segment rule - for every vertex sequence. Tie: all sequences of length <= 5 on the 3x3 lattice plus random long ones.",
         "rule": "every vertex sequence of length 1..5 on the 3x3 lattice as a closed ring (and short ones as open series), plus random "
                 "sequences up to 300 points with duplicate and collinear vertices; non-trivial = a non-empty closed ring (convex/clockwise judged)",
         "exhaustive_part": "all 66429 vertex sequences of length 1..5 on the 3x3 lattice",
@@ -40,6 +42,7 @@ PROPS = {
         "proof_module": "GeoProofs.Props.C01Index",
         "theorems": ["Geo.containsPoint_fold_perm", "Geo.ringContainsPoint_hit_iff", "Geo.ringContainsPoint_hit_iff_none", "Geo.ringContainsPoint_hit_iff_quadtree", "Geo.ringContainsPoint_idx_on", "Geo.rectRing_containsPoint_iff", "Geo.polyContainsPoint_iff", "Geo.lineContainsPoint_iff", "Geo.rectContainsPoint_iff", "Geo.ringContainsPoint_index_indep", "Geo.ringContainsPoint_hit_iff_rtree", "Geo.polyContainsPoint_iff_rtree", "Geo.lineContainsPoint_iff_rtree"],
         "trivial_sigs": set(),
+        "claim": "Proof (Lean 4): for every vertex list, every query point and every index kind/threshold the model's ring/polygon/line/rect membership equals the crossing-parity specification (ringContainsPoint_hit_iff, polyContainsPoint_iff, lineContainsPoint_iff, index independence via the C04 search-exactness theorems incl. the R-tree on dyadic coordinates); the model is tied to /repo by exhaustive small-lattice and random correspondence at geometry and object level under 8 index configurations.",
         "rule": "every ring of 3..4 vertices (5 thorough) on the 3x3 lattice against all 49 half-step query points, rotating through "
                 "index configurations; random lines, rects, arbitrary and valid polygons (with holes, >=64 vertices) under 8 index "
                 "configurations whose answers must agree; non-trivial = distinct (shape, query) case",
@@ -51,6 +54,7 @@ PROPS = {
         "proof_module": "GeoProofs.Props.C04",
         "theorems": ["Geo.qtree_search_exact", "Geo.rtree_search_exact", "Geo.rtree_search_exact_of_NE", "Geo.rBuild_items_counterexample", "Geo.readNum_appendNum", "Geo.qSearchTree_eq_foldUntil", "Geo.qVisit_perm_filter", "Geo.qInsert_inv", "Geo.qInsert_items", "Geo.qBuild_spec", "Geo.rSearchTree_eq_foldUntil", "Geo.rVisit_eq_filter", "Geo.splitEntries_perm", "Geo.rBuild_spec'", "Geo.series_search_exact_none", "Geo.series_search_exact_quadtree", "Geo.series_search_exact_rtree", "Geo.segBox_inside_rect", "Geo.series_search_exact_rtree_dyadic", "Geo.series_search_exact_dyadic", "Geo.decF64_encF64", "Geo.rtree_search_exact_patched", "Geo.rBuild_good"],
         "trivial_sigs": {"se0"},
+        "claim": "Proof (Lean 4), any carrier whose comparison is a strict weak order (nothing assumed about midpoints; R-tree: subtraction with exact sign), any size, any query: searching the compressed quadtree / R-tree bytes is the early-exit fold over a visit list that is a permutation of the brute-force filter, never an out-of-range read; codec round trip; series-level corollaries for all three index kinds. Tie: index BYTES and callback sequences compared with the implementation.",
         "rule": "series of sizes 0..1000 (..70000 thorough) in 7 layouts, open and closed, under no index / R-tree / quadtree: index bytes "
                 "compared with the model's, searches with strip, infinite, degenerate and empty queries at 4 stop positions; plus "
                 "implementation-only checks on arbitrary doubles; non-trivial = a search that visits at least one segment",
@@ -61,6 +65,7 @@ PROPS = {
         "proof_module": "GeoProofs.Props.C02",
         "theorems": ["Geo.rect_intersects_rect_iff", "Geo.rect_intersects_rect_illformed", "Geo.rect_intersects_symm", "Geo.lineIntersectsLine_iff", "Geo.lineIntersectsLine_symm", "Geo.lineIntersectsLine_iff_mk", "Geo.point_intersects_iff", "Geo.point_intersects_line_iff", "Geo.point_intersects_rect_spec", "Geo.geom_intersects_symm_pointrect", "Geo.geom_intersects_dispatch_symm", "Geo.geom_intersects_symm_partial", "Geo.ringIntersectsSegment_sound", "Geo.ringIntersectsSegment_sound_mk", "Geo.vertex_on_segment", "Geo.ringIntersectsLine_sound", "Geo.ringIntersectsRing_sound"],
         "trivial_sigs": set(),
+        "claim": "Partial proof (Lean 4): rect x rect and point x anything exact, line x line exact and symmetric (un-indexed), soundness of every `true` of ring x segment/line/ring, dispatch-level symmetry for all kind pairs except Poly x Poly; completeness of `false` answers of ring x segment is a discrete Jordan-curve statement that is NOT proved. Decided for the rest by model<->implementation correspondence plus the exact executable specification (Spec.meets) on generated valid shapes in contact configurations.",
         "rule": "sampled (thorough: all) ordered pairs of small shapes on the 3x3 lattice; generated polygons (rectangles, notched, "
                 "star-shaped, with holes) against probes built from their vertices, edge midpoints and nearby lattice points, both operand "
                 "orders, 5 index configurations; non-trivial = distinct pair judged by the exact oracle (both shapes valid)",
@@ -71,12 +76,14 @@ PROPS = {
         "proof_module": "GeoProofs.Props.C03",
         "theorems": ["Geo.line_walk_terminates", "Geo.line_containsLine_eq", "Geo.rect_contains_rect_iff", "Geo.rect_contains_rect_illformed", "Geo.rect_contains_point_iff", "Geo.rect_contains_point_spec", "Geo.point_contains_point_iff", "Geo.point_contains_rect_iff", "Geo.box_contains_seriesRect_iff", "Geo.rect_contains_line_iff", "Geo.rect_contains_line_empty", "Geo.rect_contains_line_iff_onSeg", "Geo.rect_contains_poly_iff", "Geo.rect_contains_rectpoly", "Geo.seriesRect_eq_ptbox_iff", "Geo.point_contains_line_iff", "Geo.point_contains_poly_iff", "Geo.line_contains_point_iff", "Geo.line_contains_point_spec", "Geo.D4_wrong_true", "Geo.D4_wrong_false", "Geo.D5_wrong_true", "Geo.D5_wrong_false", "Geo.D13_wrong_true"],
         "trivial_sigs": set(),
+        "claim": "Partial proof (Lean 4): point and rect receivers exact, Line.ContainsLine terminates (fuel never exhausted), machine-checked witnesses of the recorded defects D4/D5/D13; general exactness is NOT proved (and is false: known findings). Decided by correspondence plus the exact cut-and-sample specification (Spec.covers); pinned wrong answers are attributed to known findings only when implementation == model and the shapes are in boundary contact.",
         "rule": "as C02, plus ring-level contains/intersects-segment exports; non-trivial = distinct pair judged by the exact oracle",
     },
     "C05": {
         "suites": ["c05docs", "c05obj"],
         "level": "proof", "proof_module": "GeoProofs.Props.C05", "theorems": ["Geo.parse_fuel_sufficient", "Geo.parseTop_total", "Geo.parseTop_unmodelled_only_string_radius", "Geo.parse_extraOK", "Geo.write_some_of_extraOK", "Geo.parse_then_write_no_panic"],
         "trivial_sigs": set(),
+        "claim": "Proof on the model (Lean 4): Parse is total and its fuel is never exhausted, every parsed object has a complete extras table so the writers never index out of range, the repaired Line.ContainsLine walk terminates; all other model functions are structurally recursive. Tie: outcome correspondence (value/error/panic/timeout) under a watchdog on documents, mutations, arbitrary bytes and every method on all kind pairs. Stack depth and wall-clock are not modelled.",
         "rule": "outcomes (value / error enum / panic / timeout) of Parse on grammar-generated documents, structured mutations, arbitrary bytes, "
                 "truncations and splices, and of every query method on ordered pairs of objects of all kinds (empty collections, zero-length "
                 "segments, repeated vertices, nested features), each in a worker process under a per-op watchdog; non-trivial = distinct op",
@@ -85,6 +92,7 @@ PROPS = {
         "suites": ["c06"],
         "level": "proof", "proof_module": "GeoProofs.Props.C06", "theorems": ["Geo.render_writeV", "Geo.written_tokOK", "Geo.reparse_ok_partial", "Geo.reparse_ok_partial_lineString", "Geo.geometry_preserved", "Geo.lineCoords_roundtrip", "Geo.polyCoords_roundtrip", "Geo.feature_has_properties", "Geo.members_preserved_partial", "Geo.isRectRing_rectRing"],
         "trivial_sigs": set(),
+        "claim": "Partial proof on the AST model (Lean 4): the written text is the rendering of an AST (render_writeV), re-parse gives the identical object for Point and LineString documents, coordinate/extra round trips for LineString/Polygon/Multi* parts, Rect re-detection, Feature always has properties; the full structural induction over collections/features is NOT assembled. Decided in addition by byte-exact correspondence of the writers and an implementation-side round-trip oracle built on encoding/json.",
         "rule": "grammar-generated accepted documents (9 types + Circle convention, nesting, 2-4-D and mixed positions, duplicate/escaped keys, "
                 "foreign members, whitespace) under random options: implementation JSON compared byte-for-byte with the model's writer, and the "
                 "round-trip clauses (re-parse accepted, same kind, fixpoint, information preserved, same answers) judged on the implementation "
@@ -94,6 +102,7 @@ PROPS = {
         "suites": ["c07"],
         "level": "proof", "proof_module": "GeoProofs.Props.C07", "theorems": ["Geo.defect_rejected", "Geo.wf_accepted_partial", "Geo.wf_accepted_counterexample", "Geo.wf_decoded"],
         "trivial_sigs": set(),
+        "claim": "Proof on the AST model (Lean 4): every document with a listed defect is rejected (defect_rejected), every well-formed document without a dimension increase is accepted and decodes to the reference reading (wf_accepted_partial, wf_decoded); the dimension-increase case is a proved counterexample = known finding D11. Tie: the harness decodes each text with encoding/json into the AST and compares accept/reject, error kind and output bytes.",
         "rule": "well-formed documents must be accepted (and decode as the reference reader says), documents with one of the listed structural "
                 "defects must be rejected; plus arbitrary bytes; non-trivial = distinct document",
     },
@@ -101,6 +110,7 @@ PROPS = {
         "suites": ["c08"],
         "level": "proof", "proof_module": "GeoProofs.Props.C08", "theorems": ["Geo.index_opts_accept_same", "Geo.index_opts_error_same", "Geo.index_opts_obsEq", "Geo.obsEq_write", "Geo.obsEq_attrs", "Geo.allowSimplePoints_write", "Geo.requireValid_filter", "Geo.allowRects_write_partial", "Geo.allowRects_write_counterexample"],
         "trivial_sigs": set(),
+        "claim": "Proof on the AST model (Lean 4): index options change neither acceptance nor the object up to index bytes nor its JSON/attributes; AllowSimplePoints changes only the constructor; RequireValid is exactly a filter; AllowRects preserves the JSON except for a negative-zero corner (proved counterexample = known finding D18). Predicate equality across index options rests on C04/C01. Tie: option-matrix correspondence with answer groups.",
         "rule": "each document parsed under a matrix of option sets (index thresholds 0,1,n,n+1,64 x both kinds; simple points; rects): JSON, "
                 "attributes and predicate answers against probe objects must be identical across the matrix; require-valid judged as a filter",
     },
@@ -109,6 +119,7 @@ PROPS = {
         "level": "proof", "proof_module": "GeoProofs.Props.C09", "theorems": ["Geo.within_is_contains_swapped", "Geo.feature_transparent", "Geo.feature_center", "Geo.feature_argument_transparent_leaf", "Geo.feature_argument_not_transparent_counterexample", "Geo.simplepoint_as_point_receiver", "Geo.simplepoint_as_point_argument", "Geo.simplepoint_as_point", "Geo.contains_empty_false", "Geo.empty_iff_all_leaves_empty", "Geo.contains_empty_receiver_false", "Geo.intersects_empty_false", "Geo.intersects_empty_receiver_false", "Geo.intersects_empty_false_point", "Geo.contains_implies_rect_covers_partial", "Geo.contains_implies_intersects_partial", "Geo.intersects_implies_rects_meet_partial", "Geo.intersects_empty_false_partial", "Geo.intersects_iff_atoms", "Geo.feature_argument_transparent_intersects", "Geo.intersects_iff_atoms_rect", "Geo.intersects_symm_partial", "Geo.leaf_contains_rect_covers_point_rect", "Geo.leaf_intersects_rects_meet_point_rect", "Geo.leaf_intersects_symm_point_rect", "Geo.leaf_contains_intersects_point_rect", "Geo.leaf_contains_intersects_rect_counterexample", "Geo.pr_not_empty", "Geo.point_rect_contains_implies_rect_covers", "Geo.point_rect_intersects_implies_rects_meet", "Geo.point_rect_intersects_symm", "Geo.point_rect_contains_implies_intersects", "Geo.DispatchFacts.dispatch_table_pinned", "Geo.DispatchFacts.within_forwards_to_contains", "Geo.DispatchFacts.json_wrappers", "Geo.DispatchFacts.feature_forwards"],
         "translators": [{"name": "dispatch", "out": "Dispatch.lean"}],
         "trivial_sigs": set(),
+        "claim": "Proof (Lean 4) of the object-level algebra on the model: within = contains swapped, Feature/SimplePoint transparency, reduction of the algebra laws to leaf-level facts (proved for point/rect leaves), counterexample for Feature-of-collection as argument (known finding D16); the dispatch bodies of all 13 types are re-extracted from the source on every run and pinned (dispatch_table_pinned). Laws also judged on the implementation (incl. circles).",
         "rule": "ordered pairs of objects of all kinds built by the constructors (collections nested, features, empties): six predicate answers "
                 "compared with the model, the algebra laws judged on the implementation (xalgebra), wrapper transparency by answer groups "
                 "(Feature vs geometry, Rect vs 5-point polygon, SimplePoint vs Point), circles by implementation-only laws",
@@ -117,6 +128,7 @@ PROPS = {
         "suites": ["c10"],
         "level": "proof", "proof_module": "GeoProofs.Props.C10", "theorems": ["Geo.coll_empty_iff", "Geo.coll_numPoints_sum", "Geo.coll_rect_union", "Geo.coll_leaves", "Geo.searchChildren_spec", "Geo.mem_searchChildren", "Geo.searchChildren_sublist", "Geo.searchChildren_length", "Geo.searchChildren_nodup", "Geo.coll_methods_via_search", "Geo.coll_intersects_iff", "Geo.coll_contains_iff", "Geo.coll_withinRect_iff", "Geo.coll_withinPoint_iff", "Geo.coll_withinLine_iff", "Geo.coll_withinPoly_iff", "Geo.coll_intersectsRect_iff", "Geo.coll_intersectsPoint_iff", "Geo.coll_intersectsLine_iff", "Geo.coll_intersectsPoly_iff", "Geo.indexed_irrelevant_receiver", "Geo.indexed_irrelevant_argument", "Geo.indexed_irrelevant"],
         "trivial_sigs": set(),
+        "claim": "Proof (Lean 4): all composition laws of collections (intersects/contains/within*/intersects*/empty/rect/numPoints/leaves, child search as an exact filter, the child index unobservable) for arbitrary children, leaf predicates as they are. Tie: correspondence on collections of all five kinds incl. the same text under five child-index thresholds; tidwall/rtree is modelled by its contract.",
         "rule": "collections of all five kinds (0..70 children, nested, empty children) against probe objects, child searches with early stop, "
                 "the composition laws judged by brute force over the children, and the same text parsed under thresholds 0,1,n-1,n,64 with "
                 "identical answers required",
@@ -125,6 +137,7 @@ PROPS = {
         "suites": ["c11"],
         "level": "proof", "proof_module": "GeoProofs.Props.C11", "theorems": ["Geo.unionBox_spec", "Geo.Box.TightOver.unique", "Geo.foldRects_tight", "Geo.coll_rect_tight", "Geo.coll_rect_tight_children", "Geo.center_spec", "Geo.Series.empty_iff", "Geo.atom_empty_iff", "Geo.empty_iff", "Geo.empty_line_iff", "Geo.empty_polygon_iff", "Geo.Pt.valid_iff", "Geo.Series.valid_iff", "Geo.Ring.valid_iff", "Geo.boxValid_iff", "Geo.valid_point_iff", "Geo.valid_point_fin", "Geo.valid_line_iff", "Geo.valid_line_iff_positions", "Geo.valid_polygon_iff", "Geo.valid_rect_iff", "Geo.coll_valid_bbox_iff", "Geo.zeroBox_inRange", "Geo.coll_valid_bbox_positions"],
         "trivial_sigs": set(),
+        "claim": "Proof (Lean 4): series rectangle = tight box (rect_tight, bboxSpec_tight), union/collection rectangles tight over non-empty children, centre, emptiness and validity characterisations for all kinds. Known finding D15 (Polygon.Rect ignores holes outside the exterior). Tie: attribute correspondence judged against a direct min/max specification.",
         "rule": "objects of all kinds from constructors and from parsed documents on regime E: Empty/Valid/Rect/Center/NumPoints compared with the "
                 "model and judged against the direct min/max specification over the positions of the non-empty parts",
     },
@@ -136,6 +149,7 @@ PROPS = {
                      "Geo.Interleave.shared_unchanged", "Geo.Interleave.schedule_independent", "Geo.Interleave.permuted_schedules_agree",
                      "Geo.Interleave.race_free", "Geo.Interleave.readonly_interleaving"],
         "trivial_sigs": set(),
+        "claim": "Proof (Lean 4): a kernel-checked certificate over the effect table extracted from /repo's SSA on every run shows that no function reachable from any exported method writes through anything but activation-local memory and AppendJSON's destination buffer (roots_write_nothing_shared, with a proved-sound checker), and a generic theorem shows that such programs are schedule-independent and race-free. The extractor and the contracts of 28 external functions are trusted.",
         "rule": "effect table regenerated from the SSA of /repo (RTA call graph from every exported method of every exported type and every "
                 "exported geo function); certificate re-checked by the kernel; supporting search: 8 goroutines x 400 random method calls over a "
                 "shared pool of objects of all kinds (indexed and not) compared with solo answers, and the same under the race detector",
@@ -149,6 +163,7 @@ PROPS = {
         "level": "proof", "proof_module": "GeoProofs.Props.C17", "theorems": ["Geo.render_is_json", "Geo.write_is_json", "Geo.write_type", "Geo.write_coords_depth", "Geo.nonfinite_written_as_null", "Geo.append_prefix", "Geo.featureExtra_ok", "Geo.featureExtra_writeOK", "Geo.exFeature_writeOK", "Geo.DispatchFacts.dispatch_table_pinned", "Geo.DispatchFacts.json_wrappers"],
         "translators": [{"name": "dispatch", "out": "Dispatch.lean"}],
         "trivial_sigs": set(),
+        "claim": "Proof on the model (Lean 4): every object satisfying WriteOK is written as text of the RFC 8259 object grammar with the right type name and coordinate depth, non-finite ordinates as null, NewFeature's member sanitising keeps that invariant; JSON/String/MarshalJSON wrappers pinned from the source. Tie: byte-exact correspondence on constructor-built objects with special floats and member texts; aliasing of AppendJSON(prefix) checked on the implementation.",
         "rule": "objects from every public constructor with special floats (NaN, +-Inf, -0, extremes, denormals), feature member texts (objects, "
                 "blank objects, non-objects, reserved key 'feature'), nested collections: JSON()/String()/MarshalJSON()/AppendJSON(nil) equal, "
                 "AppendJSON(prefix) with three spare capacities, encoding/json.Valid, type and coordinate depth; bytes compared with the model's writer",
@@ -158,6 +173,7 @@ PROPS = {
         "level": "other", "proof_module": "GeoProofs.Props.C13", "theorems": ["Geo.C13.newCircle_normalises", "Geo.C13.newCircle_normalises_nonpos", "Geo.C13.newCircle_haversine", "Geo.C13.newCircle_meters", "Geo.C13.haversine_le_iff_distance_le", "Geo.C13.circle_contains_point_iff", "Geo.C13.circle_contains_point_zero", "Geo.C13.circle_contains_monotone", "Geo.C13.circle_contains_point_wraps", "Geo.C13.circle_contains_circle_sound", "Geo.C13.circle_intersects_circle_iff"],
         "translators": [{"name": "geoformulas", "out": "GeoFormulas.lean"}],
         "trivial_sigs": set(),
+        "claim": "Theorems over the reals about formulas re-translated from geo.go/circle.go on every run (contains-point iff distance <= radius, monotone, circle-circle comparisons, normalisation) + numeric correspondence of the same formulas at Float + implementation-side numeric oracle with the property's tolerances. Float rounding itself cannot be proved.",
         "rule": "numeric validation on the implementation against an independent 3-D vector distance: probes at r(1+-10^-k) along random bearings, "
                 "point kinds and operand orders, monotonicity, circle-circle relations, JSON round trip, polygon ring for every step count",
         "explanation": "theorems over the reals about the translated formulas (when discharged) plus numeric validation of the float code; tolerances cannot be proved (Lean has no float theory)",
@@ -167,6 +183,7 @@ PROPS = {
         "level": "other", "proof_module": "GeoProofs.Props.C14", "theorems": ["Geo.C14.rect_lat_bounds", "Geo.C14.rect_lon_bounds", "Geo.C14.rect_pole_widens", "Geo.C14.rect_wrap_widens_general", "Geo.C14.rect_wrap_widens", "Geo.C14.rect_tiny_radius_degenerate", "Geo.C14.lat_diff_le_distance", "Geo.C14.rect_lat_cover_partial", "Geo.C14.rect_lat_cover_counterexample"],
         "translators": [{"name": "geoformulas", "out": "GeoFormulas.lean"}],
         "trivial_sigs": set(),
+        "claim": "Partial: theorems over the reals about the re-translated RectFromCenter (world bounds, pole and wrap widening, tiny-radius degenerate case, latitude coverage outside the tiny-radius branch); longitude coverage and NaN-freedom are validated numerically only.",
         "rule": "numeric validation: for random centres (poles, antimeridian) and radii, disc samples at 64 bearings x 4 distances lie inside RectFromCenter within 1 cm; world bounds; widening; no NaN",
         "explanation": "partial theorems over the reals about the translated RectFromCenter plus numeric validation of longitude coverage and NaN-freedom",
     },
@@ -175,6 +192,7 @@ PROPS = {
         "level": "other", "proof_module": "GeoProofs.Props.C15", "theorems": ["Geo.C15.haversine_symm", "Geo.C15.haversine_self", "Geo.C15.haversine_nonneg", "Geo.C15.haversine_le_one", "Geo.C15.distanceTo_nonneg", "Geo.C15.distanceTo_le_half_circumference", "Geo.C15.distanceTo_symm", "Geo.C15.distanceTo_self", "Geo.C15.distanceToHaversine_strictMono", "Geo.C15.distanceFrom_to_id", "Geo.C15.distanceTo_from_id", "Geo.C15.normalize_idem", "Geo.C15.normalize_haversine", "Geo.C15.normalize_of_lt", "Geo.C15.destination_lat_range", "Geo.C15.destination_lon_range_partial", "Geo.C15.destination_lon_range", "Geo.C15.destination_lon_range_counterexample", "Geo.C15.semi_roundtrip", "Geo.C15.destination_distance"],
         "translators": [{"name": "geoformulas", "out": "GeoFormulas.lean"}],
         "trivial_sigs": set(),
+        "claim": "Theorems over the reals about the re-translated formulas (symmetry, ranges, strict monotonicity, inverses, normalisation, destination ranges, destination distance = d, semicircle round trip) + numeric validation of the tolerance clauses; known finding D17 near the poles.",
         "rule": "numeric validation of symmetry, range, destination/distance/bearing round trips, monotone haversine, conversions, normalisation, semicircles",
         "explanation": "theorems over the reals about the translated formulas plus numeric validation of the tolerance clauses",
     },
@@ -184,6 +202,7 @@ PROPS = {
         "proof_module": "GeoProofs.Props.C12",
         "theorems": ["Geo.raycast_translate", "Geo.raycast_scale", "Geo.raycast_translate_eq", "Geo.raycast_scale_eq", "Geo.segIntersectsS_translate", "Geo.segIntersectsS_scale", "Geo.segIntersects_translate", "Geo.segIntersects_scale", "Geo.collinearPt_translate", "Geo.collinearPt_scale", "Geo.segContainsSeg_translate", "Geo.segContainsSeg_scale", "Geo.onSeg_reflX", "Geo.onSeg_reflY", "Geo.onSeg_transpose", "Geo.segsMeet_reflX", "Geo.segsMeet_reflY", "Geo.segsMeet_transpose", "Geo.raycast_on_reflX", "Geo.raycast_on_reflY", "Geo.raycast_on_transpose", "Geo.segIntersects_reflX", "Geo.segIntersects_reflY", "Geo.segIntersects_transpose", "Geo.segContainsSeg_reflX", "Geo.segContainsSeg_reflY", "Geo.segContainsSeg_transpose", "Geo.lineIntersectsLine_of_symm", "Geo.lineIntersectsLine_reflX", "Geo.lineIntersectsLine_reflY", "Geo.lineIntersectsLine_transpose", "Geo.lineContainsPoint_of_symm", "Geo.lineContainsPoint_reflX", "Geo.lineContainsPoint_reflY", "Geo.lineContainsPoint_transpose", "Geo.raycast_inn_reflX_counterexample", "Geo.processPoints_translate", "Geo.processPoints_scale", "Geo.processPoints_map_empty", "Geo.convexSpec_reflX", "Geo.convexSpec_reflY", "Geo.convexSpec_transpose", "Geo.clockwiseSpec_reflX", "Geo.clockwiseSpec_reflY", "Geo.clockwiseSpec_transpose", "Geo.processPoints_reflX", "Geo.processPoints_reflY", "Geo.processPoints_transpose", "Geo.ringContainsPoint_translate", "Geo.ringContainsPoint_scale", "Geo.ringContainsPoint_translate_hit", "Geo.ringContainsPoint_scale_hit", "Geo.ringContainsSegment_aff", "Geo.ringIntersectsSegment_aff", "Geo.ringContainsRing_aff", "Geo.ringIntersectsRing_aff", "Geo.ringIntersectsLine_aff", "Geo.line_containsLineO_aff", "Geo.geom_contains_aff", "Geo.geom_intersects_aff", "Geo.geom_contains_translate", "Geo.geom_intersects_translate", "Geo.geom_contains_scale", "Geo.geom_intersects_scale", "Geo.raycast_inn_neg_scale_counterexample"],
         "trivial_sigs": set(),
+        "claim": "Partial proof (Lean 4): every kernel, membership, ring-level heuristic and the whole contains/intersects matrix are equivariant under translation and positive scaling (un-indexed shapes); on-segment, segment intersection, line x line and line-contains-point invariant under reflections and transposition; convex/clockwise transform as expected. NOT proved: polygon membership under reflections/transposition (Jordan), start-vertex independence of the contains heuristics (false: D4/D5). Tie: metamorphic answer groups on the implementation.",
         "rule": "generated pairs under translation (also via Move), scaling by 2,4,1024, reflection in x, in y, transposition, every "
                 "rotation of the start vertex, reversal, dropped closing vertex: answers within a group must be identical",
     },
